@@ -48,6 +48,13 @@ HISTORY_ONLY = {
     'H3 undecodable bytes': {'scenario': 'codec', 'tag': 9, 'elems': 3},
     'H4 n8 x1 larger aggregate': {'scenario': 'batch', 'n': 8, 'x': 1, 'members': [{'m': 4, 'cap': 8, 'values': ['1', '2', '3', '4'], 'rng': 'const', 'name_idx': 8}], 'actions': ACTS},
     'H5 same shape as T1, other data': {'scenario': 'batch', 'n': 8, 'x': 1, 'members': [{'m': 1, 'cap': 1, 'seeded': True, 'values': ['77'], 'promises': ['5'], 'rng': 'zero', 'name_idx': 9}], 'actions': ACTS},
+    'H7 batch refused inside the member loop (too few rounds at position 1)': {'scenario': 'batch', 'n': 8, 'x': 1, 'members': [
+        {'m': 2, 'cap': 2, 'values': ['1', '2'], 'rng': 'const', 'name_idx': 11, 'label': 'member 0'},
+        {'m': 1, 'cap': 2, 'values': ['3'], 'rng': 'const', 'name_idx': 12, 'label': 'member 1', 'tamper': {'op': 'drop_round'}}], 'actions': ACTS},
+    'H8 batch refused inside the member loop (identity point at position 2)': {'scenario': 'batch', 'n': 8, 'x': 1, 'members': [
+        {'m': 1, 'cap': 4, 'values': ['1'], 'rng': 'const', 'name_idx': 13, 'label': 'member 0', 'seeded': True},
+        {'m': 4, 'cap': 4, 'values': ['3', '4', '5', '6'], 'rng': 'const', 'name_idx': 14, 'label': 'member 1'},
+        {'m': 2, 'cap': 4, 'values': ['3', '9'], 'rng': 'const', 'name_idx': 15, 'label': 'member 2', 'tamper': {'op': 'point_identity', 'elem': 1}}], 'actions': ACTS},
     'H6 n64 x1 m4 cap8': {'scenario': 'batch', 'n': 64, 'x': 1, 'members': [{'m': 4, 'cap': 8, 'values': ['5', U64MAX, '0', '9'], 'rng': 'const', 'name_idx': 10}], 'actions': ['VerifyOnly']},
 }
 
@@ -293,7 +300,7 @@ def concrete_companions(ctx):
 
 
 def run(ctx):
-    for name, cfg in list(TARGETS.items()) + [(k, v) for k, v in HISTORY_ONLY.items() if v['scenario'] == 'batch' and 'tamper' not in v['members'][0]]:
+    for name, cfg in list(TARGETS.items()) + [(k, v) for k, v in HISTORY_ONLY.items() if v['scenario'] == 'batch' and not any('tamper' in mm for mm in v['members'])]:
         FRESH[name] = run_symx({'scenario': 'history', 'steps': [cfg]}, ctx.seed)
     for name in TARGETS:
         st = FRESH[name]['out']['steps'][0]['out']
